@@ -5,7 +5,8 @@ import json, sys, os, glob, subprocess
 pid = sys.argv[1]
 n = sys.argv[2] if len(sys.argv) > 2 else "3"
 rnd = os.environ.get("MUT_ROUND", "4")
-tag = "c" + pid[1:].lower() + "d"
+rnd = os.environ.get("MUT_ROUND", "4")
+tag = "c" + pid[1:].lower() + ("d" if rnd == "4" else "e")
 base = subprocess.run(["python3", "/verif/tools/mutant_prompt.py", pid, n], stdout=subprocess.PIPE, text=True).stdout
 base = base.replace(f"/tmp/mut-{pid}/repo", f"/tmp/mut{rnd}-{pid}/repo").replace(f"/tmp/mut-{pid}/out", f"/tmp/mut{rnd}-{pid}/out")
 base = base.replace(f"and set `CARGO_TARGET_DIR=/tmp/mut-{pid}/target`.", "and export `CARGO_TARGET_DIR=/tmp/mut-target CARGO_INCREMENTAL=0 CARGO_PROFILE_DEV_DEBUG=0 CARGO_PROFILE_TEST_DEBUG=0` in every cargo command (the target dir is SHARED with other jobs to save disk: never delete it, expect 'waiting for file lock' pauses, never run `cargo clean`).")
@@ -18,5 +19,5 @@ for d in sorted(glob.glob(f"/verif/seeded/{pid}-*")):
 print(base)
 print(f"""IMPORTANT (shared target dir): use a PRIVATE cargo profile for every cargo command: `cargo --config 'profile.{tag}.inherits="dev"' --config 'profile.{tag}.debug=0' test --profile {tag} ...` (artifacts then go to /tmp/mut-target/{tag}/), and sanity-check that the test names that ran are yours. Use `-j 5`. Some source files carry `anda_db_utils::verif_point!` / `verif_wait!` lines and `#[cfg(feature = "verif")]` blocks: they are inert instrumentation — leave those lines in place (a change may move code around them but should keep one before each lock acquisition it keeps or adds). When you are completely done, delete `/tmp/mut-target/{tag}` (your private profile's build output) — nothing else in that directory.
 
-FOURTH ROUND: the following changes were already collected in earlier rounds — do NOT repeat them or close variants of them. Re-read the property statement clause by clause and the mechanism list entry by entry, and look for changes in functions / mechanisms / entry points / clauses that NONE of the earlier changes touched (for example: a rarely used public entry point that shares a helper, a second backend or configuration of the same mechanism, a boundary value, a recovery or retry path, an interaction between two features). First lines of each earlier change's notes:
+ROUND {rnd}: the following changes were already collected in earlier rounds — do NOT repeat them or close variants of them. Re-read the property statement clause by clause and the mechanism list entry by entry, and look for changes in functions / mechanisms / entry points / clauses that NONE of the earlier changes touched (for example: a rarely used public entry point that shares a helper, a second backend or configuration of the same mechanism, a boundary value, a recovery or retry path, an interaction between two features). First lines of each earlier change's notes:
 """ + "\n".join(prior))
